@@ -7,7 +7,8 @@ CONSTANTS
   NR = 1
   NT = 1
   Writers = {1}
-  RdThreads = {1}
+  ItThreads = {1}
+  RdThreads = {}
   MapInit = 10
   UsedInit = 0
   Chunk = 10
